@@ -586,6 +586,16 @@ func (e *vfE7Env) run(c vfE7Case) (status int, reqs []string) {
 		if len(reqs) > 0 {
 			rs = "*"
 		}
+		// a read-only route must send nothing but GETs: any other upstream request is shown in full
+		var posts []string
+		for _, r := range reqs {
+			if !strings.HasPrefix(r, "G:") {
+				posts = append(posts, r)
+			}
+		}
+		if len(posts) > 0 {
+			rs = "*|" + strings.Join(posts, "|")
+		}
 	} else if len(reqs) > 0 {
 		rs = strings.Join(reqs, "|")
 	}
